@@ -74,6 +74,11 @@ func numberReprs(text string, o ReprOpts) []func() (any, string) {
 	var out []func() (any, string)
 	add := func(v any, k string) { out = append(out, func() (any, string) { return v, k }) }
 	add(json.Number(text), "json.Number")
+	if r.Sign() == 0 && strings.HasPrefix(text, "-") {
+		// negative zero: the same JSON number as 0, another bit pattern
+		add(math.Copysign(0, -1), "float64(-0)")
+		add(float32(math.Copysign(0, -1)), "float32(-0)")
+	}
 	if f, exact := r.Float64(); exact && !math.IsInf(f, 0) {
 		add(f, "float64")
 		add(NFloat(f), "NFloat")
@@ -265,6 +270,13 @@ func commonType(r *rand.Rand, model []any, els []any, o ReprOpts) (reflect.Type,
 		}
 		sortStrings(ok)
 		k := ok[r.IntN(len(ok))]
+		if r.IntN(10) < 3 {
+			for _, cand := range ok {
+				if cand == "json.Number" { // []json.Number keeps every element's own spelling ("1", "1.0", "1e0")
+					k = cand
+				}
+			}
+		}
 		return reflect.TypeOf(vals[k][0]), vals[k]
 	case allStr:
 		if r.IntN(3) == 0 {
